@@ -39,6 +39,11 @@ def keepOK (ttl : Int) (before after : View) (kind : Kind) : Bool :=
       | .prune now => decide (now - t.2 > ttl)
       | _ => false
 
+/-- (d) a tombstone the message delivers (a local delete, or a peer's tombstone — alone or in a
+    batch — that was not issued by this very node) is RECORDED: the key is tombstoned afterwards,
+    whether or not the replica had ever seen the key -/
+def recordOK (after : View) (delivered : List Nat) : Bool := delivered.all (tombed after)
+
 def stepOK (ttl : Int) (before after : View) (kind : Kind) : Bool :=
   absentOK after && readOK before kind && keepOK ttl before after kind
 
